@@ -1,6 +1,32 @@
-//! C13 check (see /verif/DESIGN.md section 5 and /verif/mc/README-dev.md).
-use mclib::engine::{catch, finish, install_quiet_panic_hook, Ctx, Report, Tier};
-use serde_json::json;
+//! C13 — the text parsers return a result for every input (E1 + E3, both profiles).
+//!
+//! See /verif/DESIGN.md section 5 "C13" and /verif/mc/README-dev.md.
+//!
+//! Architecture: the binary started with `--tier` is an *orchestrator*. It never calls the
+//! subject itself; every call into `/repo` happens in child processes (`--worker` = this
+//! binary = checked profile, `$MC_RELEASE_DIR/c13 --worker-release` = release profile) whose
+//! stderr is /dev/null (`pretty_parse` renders diagnostics to stderr) and whose death
+//! (stack overflow, abort, hang) is a verdict about the input they were running. Input
+//! families are pure functions `(family, index) -> String` compiled into both binaries, so
+//! the orchestrator only ships index ranges and compares per-chunk hashes of the per-input
+//! outcome vectors of the two profiles (re-querying exact inputs on a mismatch).
+mod families;
+mod subject;
+mod worker;
+
+use families::Family;
+use mclib::engine::{finish, install_quiet_panic_hook, mk_key, Ctx, Report, Tier, Violation};
+use serde_json::{json, Value};
+use std::collections::BTreeMap;
+use std::io::{BufRead, BufReader, Write};
+use std::path::PathBuf;
+use std::process::{Child, ChildStdin, ChildStdout, Command, Stdio};
+use std::sync::Mutex;
+
+pub const MIB: u64 = 1024 * 1024;
+/// stack of the thread that runs ordinary families ("main-thread-sized")
+pub const DEFAULT_STACK: u64 = 8 * MIB;
+pub const NEST_STACK: u64 = 64 * MIB;
 
 fn parse_args() -> (Tier, Option<String>, Vec<String>) {
     let args: Vec<String> = std::env::args().collect();
@@ -28,18 +54,882 @@ fn parse_args() -> (Tier, Option<String>, Vec<String>) {
     (tier, replay, rest)
 }
 
-fn main() {
-    install_quiet_panic_hook();
-    let (tier, replay, _rest) = parse_args();
-    if let Some(path) = replay {
-        let _ = path;
-        eprintln!("replay not implemented yet");
+// ---------------------------------------------------------------------------------------
+// worker handles
+// ---------------------------------------------------------------------------------------
+
+#[derive(Clone, Debug)]
+pub struct Anomaly {
+    pub count: u64,
+    pub idx: u64,
+    pub ep: String,
+    pub class: String,
+    pub keymsg: String,
+    pub detail: String,
+}
+impl Anomaly {
+    fn key(&self) -> String {
+        format!("{}|{}|{}", self.ep, self.class, self.keymsg)
+    }
+}
+
+#[derive(Default, Debug)]
+struct Reply {
+    hash: u64,
+    n: u64,
+    calls: u64,
+    counters: BTreeMap<String, u64>,
+    anomalies: Vec<Anomaly>,
+    details: Vec<(u64, String)>,
+}
+
+#[derive(Debug)]
+struct Death {
+    /// last `AT <i>` seen (trace mode) or index named by the watchdog
+    last_at: Option<u64>,
+    how: String,
+}
+
+struct Worker {
+    child: Child,
+    stdin: ChildStdin,
+    stdout: BufReader<ChildStdout>,
+}
+
+#[derive(Clone)]
+struct Exes {
+    checked: PathBuf,
+    release: Option<PathBuf>,
+}
+
+impl Exes {
+    fn exe(&self, profile: &str) -> Option<(&PathBuf, &'static str)> {
+        match profile {
+            "checked" => Some((&self.checked, "--worker")),
+            _ => self.release.as_ref().map(|p| (p, "--worker-release")),
+        }
+    }
+    fn spawn(&self, profile: &str) -> Option<Worker> {
+        let (exe, flag) = self.exe(profile)?;
+        Worker::spawn(exe, flag, None).ok()
+    }
+    /// Re-run one literal input with stage tracing and stderr captured; if the worker dies,
+    /// return (entry point/stage that was running, last message on stderr).
+    fn diagnose_death(&self, profile: &str, input: &str, pretty: bool, stack: u64, dskip: u32) -> Option<(String, String)> {
+        static N: std::sync::atomic::AtomicU64 = std::sync::atomic::AtomicU64::new(0);
+        let n = N.fetch_add(1, std::sync::atomic::Ordering::Relaxed);
+        let path = std::env::temp_dir().join(format!("c13-diag-{}-{n}.txt", std::process::id()));
+        let (exe, flag) = self.exe(profile)?;
+        let mut w = Worker::spawn(exe, flag, Some(&path)).ok()?;
+        w.hello()?;
+        w.send(&format!("RUN lit:{} 0 1 {} {} run 0 {dskip}", hex::encode(input.as_bytes()), pretty as u8, stack));
+        let r = w.read_reply();
+        let text = std::fs::read(&path).map(|b| String::from_utf8_lossy(&b).to_string()).unwrap_or_default();
+        let _ = std::fs::remove_file(&path);
+        let d = r.err()?;
+        let mut stage = "unknown-stage".to_string();
+        let mut tail: Vec<&str> = vec![];
+        for l in text.lines() {
+            if let Some(s) = l.strip_prefix("STAGE ") {
+                stage = s.trim().to_string();
+                tail.clear();
+            } else if !l.trim().is_empty() {
+                tail.push(l.trim());
+            }
+        }
+        // the abort message is what the runtime printed last; pretty_parse output may precede it
+        let mut msg = String::new();
+        if let Some(l) = tail.iter().rev().find(|l| l.starts_with("C13-PANIC: ")) {
+            msg = l.trim_start_matches("C13-PANIC: ").to_string();
+        } else if let Some(l) = tail.iter().rev().find(|l| l.contains("overflowed its stack") || l.contains("stack overflow") || l.contains("memory allocation")) {
+            msg = l.to_string();
+        } else {
+            msg = d.how.clone();
+        }
+        let msg = msg.trim().to_string();
+        Some((stage, format!("{msg} [{}]", d.how)))
+    }
+}
+
+impl Worker {
+    fn spawn(exe: &PathBuf, flag: &str, stderr_to: Option<&PathBuf>) -> std::io::Result<Worker> {
+        let mut cmd = Command::new(exe);
+        cmd.arg(flag).stdin(Stdio::piped()).stdout(Stdio::piped()).env("NO_COLOR", "1");
+        match stderr_to {
+            Some(p) => {
+                cmd.stderr(Stdio::from(std::fs::File::create(p)?)).env("C13_STAGE_TRACE", "1");
+            }
+            None => {
+                cmd.stderr(Stdio::null()).env_remove("C13_STAGE_TRACE");
+            }
+        }
+        let mut child = cmd.spawn()?;
+        let stdin = child.stdin.take().unwrap();
+        let stdout = BufReader::new(child.stdout.take().unwrap());
+        Ok(Worker { child, stdin, stdout })
+    }
+    /// `HELLO <profile> <fingerprint>`
+    fn hello(&mut self) -> Option<(String, String)> {
+        let mut line = String::new();
+        self.stdout.read_line(&mut line).ok()?;
+        let mut it = line.split_whitespace();
+        if it.next()? != "HELLO" {
+            return None;
+        }
+        Some((it.next()?.to_string(), it.next()?.to_string()))
+    }
+    fn send(&mut self, cmd: &str) {
+        // a write error means the worker is dead; the following read reports it
+        let _ = writeln!(self.stdin, "{cmd}");
+        let _ = self.stdin.flush();
+    }
+    fn read_reply(&mut self) -> Result<Reply, Death> {
+        let mut r = Reply::default();
+        let mut last_at = None;
+        let mut line = String::new();
+        loop {
+            line.clear();
+            let n = self.stdout.read_line(&mut line).unwrap_or(0);
+            if n == 0 {
+                let how = match self.child.wait() {
+                    Ok(st) => describe_status(&st),
+                    Err(e) => format!("wait failed: {e}"),
+                };
+                return Err(Death { last_at, how });
+            }
+            let l = line.trim_end_matches('\n');
+            if let Some(rest) = l.strip_prefix("AT ") {
+                last_at = rest.trim().parse().ok();
+            } else if let Some(rest) = l.strip_prefix("O ") {
+                let mut it = rest.splitn(2, ' ');
+                let i = it.next().and_then(|s| s.parse().ok()).unwrap_or(0);
+                r.details.push((i, it.next().unwrap_or("").to_string()));
+            } else if let Some(rest) = l.strip_prefix("A ") {
+                let mut it = rest.splitn(3, ' ');
+                let count = it.next().and_then(|s| s.parse().ok()).unwrap_or(1);
+                let idx = it.next().and_then(|s| s.parse().ok()).unwrap_or(0);
+                let v: Value = serde_json::from_str(it.next().unwrap_or("[]")).unwrap_or(Value::Null);
+                let g = |i: usize| v.get(i).and_then(|x| x.as_str()).unwrap_or("").to_string();
+                r.anomalies.push(Anomaly { count, idx, ep: g(0), class: g(1), keymsg: g(2), detail: g(3) });
+            } else if let Some(rest) = l.strip_prefix("HANG ") {
+                let i = rest.trim().parse().ok();
+                let _ = self.child.kill();
+                let _ = self.child.wait();
+                return Err(Death { last_at: i, how: "hang (no progress on one input for the watchdog period)".into() });
+            } else if let Some(rest) = l.strip_prefix("ERR ") {
+                eprintln!("ENGINE-ERROR: worker reported: {rest}");
+                std::process::exit(2);
+            } else if let Some(rest) = l.strip_prefix("DONE ") {
+                let mut it = rest.split_whitespace();
+                r.hash = it.next().and_then(|s| u64::from_str_radix(s, 16).ok()).unwrap_or(0);
+                r.n = it.next().and_then(|s| s.parse().ok()).unwrap_or(0);
+                r.calls = it.next().and_then(|s| s.parse().ok()).unwrap_or(0);
+                for kv in it {
+                    if let Some((k, v)) = kv.rsplit_once('=') {
+                        r.counters.insert(k.to_string(), v.parse().unwrap_or(0));
+                    }
+                }
+                return Ok(r);
+            }
+        }
+    }
+}
+
+fn describe_status(st: &std::process::ExitStatus) -> String {
+    use std::os::unix::process::ExitStatusExt;
+    if let Some(sig) = st.signal() {
+        let name = match sig {
+            6 => "SIGABRT",
+            11 => "SIGSEGV",
+            7 => "SIGBUS",
+            9 => "SIGKILL",
+            4 => "SIGILL",
+            _ => "signal",
+        };
+        format!("killed by {name} ({sig})")
+    } else {
+        format!("exit status {}", st.code().unwrap_or(-1))
+    }
+}
+
+/// Key and message of a worker death on `input`.
+#[allow(clippy::too_many_arguments)]
+fn death_key(exes: &Exes, profile: &str, input: &str, pretty: bool, stack: u64, dskip: u32, how: &str) -> (String, String, Option<String>) {
+    let class = if how.contains("hang") { "hang" } else { "abort" };
+    match exes.diagnose_death(profile, input, pretty, stack, dskip) {
+        Some((stage, msg)) => {
+            let core = msg.rsplit_once(" [").map(|x| x.0).unwrap_or(&msg);
+            (
+                format!("{stage}|{class}|{}", subject::normalise_panic(core)),
+                format!("[{stage}] {profile} worker process died ({how}) while running this input: {msg}"),
+                Some(stage),
+            )
+        }
+        None => (
+            format!("all|{class}|worker_{}", how.split(" (").next().unwrap_or(how)),
+            format!("{profile} worker process died ({how}) while running this input (death did not recur under stage tracing)"),
+            None,
+        ),
+    }
+}
+
+/// bit of the entry point whose Display stage is named by `stage` ("IDLProg/display")
+fn display_bit(stage: &str) -> Option<u32> {
+    let ep = stage.strip_suffix("/display")?;
+    subject::EP_NAMES.iter().position(|n| *n == ep).map(|i| 1u32 << i)
+}
+
+// ---------------------------------------------------------------------------------------
+// violation aggregation: one key per (entry point, failure class), shortest input kept
+// ---------------------------------------------------------------------------------------
+
+#[derive(Clone, Debug)]
+struct AggEntry {
+    count: u64,
+    per_profile: BTreeMap<String, u64>,
+    input: String,
+    family: String,
+    index: u64,
+    pretty: bool,
+    stack: u64,
+    dskip: u32,
+    msg: String,
+}
+
+#[derive(Default)]
+struct Agg {
+    entries: BTreeMap<String, AggEntry>,
+}
+
+impl Agg {
+    #[allow(clippy::too_many_arguments)]
+    fn add(&mut self, key: &str, profile: &str, count: u64, input: String, lvl: &Level, index: u64, msg: String) {
+        let e = self.entries.entry(key.to_string()).or_insert_with(|| AggEntry {
+            count: 0,
+            per_profile: BTreeMap::new(),
+            input: input.clone(),
+            family: lvl.family.clone(),
+            index,
+            pretty: lvl.pretty,
+            stack: lvl.stack,
+            dskip: lvl.dskip,
+            msg: msg.clone(),
+        });
+        e.count += count;
+        *e.per_profile.entry(profile.to_string()).or_insert(0) += count;
+        // deterministic representative: shortest input, then smallest text
+        if (input.len(), &input) < (e.input.len(), &e.input) {
+            e.input = input;
+            e.family = lvl.family.clone();
+            e.index = index;
+            e.pretty = lvl.pretty;
+            e.stack = lvl.stack;
+            e.dskip = lvl.dskip;
+            e.msg = msg;
+        }
+    }
+}
+
+// ---------------------------------------------------------------------------------------
+// levels
+// ---------------------------------------------------------------------------------------
+
+#[derive(Clone, Debug)]
+struct Level {
+    name: String,
+    family: String,
+    total: u64,
+    chunk: u64,
+    pretty: bool,
+    stack: u64,
+    /// inputs per worker request (a death loses at most this much work)
+    sub: u64,
+    /// skip the Display stage on quarantined inputs (see subject::quarantined)
+    quar: bool,
+    /// bit ep = skip the Display stage of that entry point (set only when re-running an input
+    /// whose Display stage of that entry point has just killed a worker)
+    dskip: u32,
+}
+
+struct Pair {
+    checked: Worker,
+    release: Option<Worker>,
+}
+
+/// Process spawns are expensive here (~0.1-0.3 s): worker pairs are kept across levels.
+struct Pooled<'a> {
+    pair: Option<Pair>,
+    pool: &'a Mutex<Vec<Pair>>,
+}
+impl Drop for Pooled<'_> {
+    fn drop(&mut self) {
+        if let Some(p) = self.pair.take() {
+            self.pool.lock().unwrap().push(p);
+        }
+    }
+}
+
+fn run_cmd(lvl: &Level, lo: u64, hi: u64, mode: &str) -> String {
+    format!("RUN {} {} {} {} {} {} {} {}", lvl.family, lo, hi, lvl.pretty as u8, lvl.stack, mode, lvl.quar as u8, lvl.dskip)
+}
+
+/// Identify the input in `lo..hi` on which a fresh worker of `profile` dies.
+fn find_killer(exes: &Exes, profile: &str, lvl: &Level, lo: u64, hi: u64) -> Option<(u64, String)> {
+    let mut w = exes.spawn(profile)?;
+    w.hello()?;
+    w.send(&run_cmd(lvl, lo, hi, "trace"));
+    match w.read_reply() {
+        Ok(_) => None,
+        Err(d) => d.last_at.map(|i| (i, d.how)),
+    }
+}
+
+struct Shared<'a> {
+    exes: &'a Exes,
+    agg: &'a Mutex<Agg>,
+}
+
+static POOL: Mutex<Vec<Pair>> = Mutex::new(Vec::new());
+
+fn respawn(exes: &Exes, profile: &str) -> Worker {
+    let mut w = exes.spawn(profile).unwrap_or_else(|| {
+        eprintln!("ENGINE-ERROR: cannot spawn {profile} worker");
+        std::process::exit(2)
+    });
+    if w.hello().is_none() {
+        eprintln!("ENGINE-ERROR: {profile} worker did not greet");
         std::process::exit(2);
     }
-    let ctx = Ctx::new("C13", tier, tier.pick(120, 1200));
+    w
+}
+
+fn process_range(sh: &Shared, pair: &mut Pair, lvl: &Level, fam: &Family, lo: u64, hi: u64, rep: &mut Report) {
+    if lo >= hi {
+        return;
+    }
+    let cmd = run_cmd(lvl, lo, hi, "run");
+    pair.checked.send(&cmd);
+    if let Some(r) = pair.release.as_mut() {
+        r.send(&cmd);
+    }
+    let rc = pair.checked.read_reply();
+    let rr = pair.release.as_mut().map(|r| r.read_reply());
+    // deaths first
+    let mut died: Option<(&str, Death)> = None;
+    let rc = match rc {
+        Ok(r) => Some(r),
+        Err(d) => {
+            pair.checked = respawn(sh.exes, "checked");
+            died = Some(("checked", d));
+            None
+        }
+    };
+    let rr = match rr {
+        Some(Ok(r)) => Some(r),
+        Some(Err(d)) => {
+            pair.release = Some(respawn(sh.exes, "release"));
+            if died.is_none() {
+                died = Some(("release", d));
+            }
+            None
+        }
+        None => None,
+    };
+    if let Some((profile, d)) = died {
+        let killer = match d.last_at {
+            Some(i) => Some((i, d.how.clone())),
+            None => find_killer(sh.exes, profile, lvl, lo, hi),
+        };
+        match killer {
+            Some((k, how)) if k >= lo && k < hi => {
+                let input = fam.input(k);
+                let (key, msg, stage) = death_key(sh.exes, profile, &input, lvl.pretty, lvl.stack, lvl.dskip, &how);
+                sh.agg.lock().unwrap().add(&key, profile, 1, input, lvl, k, msg);
+                rep.count("worker_deaths", 1);
+                match stage.as_deref().and_then(display_bit) {
+                    Some(bit) if lvl.dskip & bit == 0 => {
+                        // observe the remaining stages of this input with the fatal Display stage masked
+                        let mut l2 = lvl.clone();
+                        l2.dskip |= bit;
+                        process_range(sh, pair, &l2, fam, k, k + 1, rep);
+                    }
+                    _ => {
+                        rep.count(&format!("inputs:{}", lvl.name), 1);
+                        rep.count("inputs_not_fully_observed_after_worker_death", 1);
+                        rep.states += 1;
+                    }
+                }
+                process_range(sh, pair, lvl, fam, lo, k, rep);
+                process_range(sh, pair, lvl, fam, k + 1, hi, rep);
+            }
+            _ => {
+                rep.notes.push(format!(
+                    "level {}: {profile} worker died on range {lo}..{hi} ({}) but the death did not recur under trace; range re-run",
+                    lvl.name, d.how
+                ));
+                rep.count("worker_deaths_not_recurring", 1);
+                // one retry; if it dies again without a culprit this is a machinery problem
+                static RETRIES: std::sync::atomic::AtomicU64 = std::sync::atomic::AtomicU64::new(0);
+                if RETRIES.fetch_add(1, std::sync::atomic::Ordering::Relaxed) > 20 {
+                    eprintln!("ENGINE-ERROR: workers keep dying without an identifiable input");
+                    std::process::exit(2);
+                }
+                process_range(sh, pair, lvl, fam, lo, hi, rep);
+            }
+        }
+        return;
+    }
+    let rc = rc.unwrap();
+    // accounting from the checked worker
+    rep.states += rc.n;
+    rep.evaluations += rc.n * subject::N_EP as u64;
+    rep.transitions += rc.calls;
+    rep.count(&format!("inputs:{}", lvl.name), rc.n);
+    rep.count("subject_calls.checked", rc.calls);
+    for (k, v) in &rc.counters {
+        if let Some(o) = k.strip_prefix("o:") {
+            *rep.outcomes.entry(o.to_string()).or_insert(0) += v;
+        } else if k == "nontrivial" {
+            rep.nontrivial += v;
+        } else {
+            rep.count(k, *v);
+        }
+    }
+    {
+        let mut agg = sh.agg.lock().unwrap();
+        for a in &rc.anomalies {
+            agg.add(&a.key(), "checked", a.count, fam.input(a.idx), lvl, a.idx, format!("[{}] {}: {}", a.ep, a.class, a.detail));
+        }
+        if let Some(rr) = &rr {
+            for a in &rr.anomalies {
+                agg.add(&a.key(), "release", a.count, fam.input(a.idx), lvl, a.idx, format!("[{}] {}: {}", a.ep, a.class, a.detail));
+            }
+        }
+    }
+    if let Some(rr) = rr {
+        rep.transitions += rr.calls;
+        rep.count("subject_calls.release", rr.calls);
+        rep.traces_validated += rr.n;
+        rep.count("release_inputs_compared", rr.n);
+        if rr.hash != rc.hash || rr.n != rc.n {
+            rep.count("chunks_with_profile_difference", 1);
+            // re-query exact outcome vectors
+            let cmd = run_cmd(lvl, lo, hi, "detail");
+            pair.checked.send(&cmd);
+            pair.release.as_mut().unwrap().send(&cmd);
+            let dc = pair.checked.read_reply();
+            let dr = pair.release.as_mut().unwrap().read_reply();
+            match (dc, dr) {
+                (Ok(dc), Ok(dr)) => {
+                    let mr: BTreeMap<u64, &String> = dr.details.iter().map(|(i, s)| (*i, s)).collect();
+                    for (i, c) in &dc.details {
+                        let r = mr.get(i).map(|s| s.as_str()).unwrap_or("");
+                        if c != r {
+                            let input = fam.input(*i);
+                            if subject::codes_have_panic(c) || subject::codes_have_panic(r) {
+                                // same root cause as the panic violation already keyed by entry point
+                                rep.count("profile_differences_explained_by_a_panic", 1);
+                            } else {
+                                let key = format!("profile-disagreement|{}", input);
+                                sh.agg.lock().unwrap().add(
+                                    &key,
+                                    "both",
+                                    1,
+                                    input,
+                                    lvl,
+                                    *i,
+                                    format!(
+                                        "checked and release builds disagree: checked {} release {}",
+                                        subject::describe_codes(c),
+                                        subject::describe_codes(r)
+                                    ),
+                                );
+                            }
+                        }
+                    }
+                }
+                _ => {
+                    eprintln!("ENGINE-ERROR: worker died while re-querying details of a range it had survived");
+                    std::process::exit(2);
+                }
+            }
+        }
+    }
+}
+
+fn run_level(ctx: &Ctx, exes: &Exes, agg: &Mutex<Agg>, lvl: &Level) -> Report {
+    let fam = Family::parse(&lvl.family).expect("family");
+    assert_eq!(fam.size(), lvl.total);
+    let nchunks = lvl.total.div_ceil(lvl.chunk);
+    let sh = Shared { exes, agg };
+    let mut rep = ctx.par_range(
+        &lvl.name,
+        nchunks,
+        1,
+        || {
+            let pair = POOL.lock().unwrap().pop().unwrap_or_else(|| {
+                let checked = respawn(exes, "checked");
+                let release = exes.release.as_ref().map(|_| respawn(exes, "release"));
+                Pair { checked, release }
+            });
+            Pooled { pair: Some(pair), pool: &POOL }
+        },
+        |pooled, c, rep| {
+            let pair = pooled.pair.as_mut().unwrap();
+            let lo = c * lvl.chunk;
+            let hi = (lo + lvl.chunk).min(lvl.total);
+            let fam = Family::parse(&lvl.family).expect("family");
+            let mut a = lo;
+            while a < hi {
+                let b = (a + lvl.sub).min(hi);
+                process_range(&sh, pair, lvl, &fam, a, b, rep);
+                a = b;
+            }
+        },
+    );
+    // par_range counted chunks; restate the level in inputs
+    let inputs = rep.counters.get(&format!("inputs:{}", lvl.name)).copied().unwrap_or(0);
+    if let Some(l) = rep.levels.last_mut() {
+        let completed = l["completed"].as_bool().unwrap_or(false) && inputs == lvl.total;
+        *l = json!({"level": lvl.name, "family": lvl.family, "cases": inputs, "total": lvl.total,
+                    "chunks_done": l["cases"], "chunks_total": nchunks, "completed": completed,
+                    "pretty_parse": lvl.pretty, "stack_bytes": lvl.stack, "display_skipped_on_quarantined_inputs": lvl.quar,
+                    "profiles": if exes.release.is_some() { json!(["checked", "release"]) } else { json!(["checked"]) }});
+        if !completed {
+            rep.exhaustive = false;
+        }
+    }
+    let _ = fam;
+    rep
+}
+
+/// Informational: smallest thread stack class at which every depth-128 sentence survives.
+fn stack_classes(exes: &Exes, agg: &Mutex<Agg>, rep: &mut Report) {
+    let fam = Family::parse("nest").unwrap();
+    let templates = families::nest_template_names();
+    let classes: [(u64, &str); 3] = [(256 * 1024, "256KiB"), (MIB, "1MiB"), (8 * MIB, "8MiB")];
+    let mut cases = 0u64;
+    for profile in ["checked", "release"] {
+        if exes.exe(profile).is_none() {
+            continue;
+        }
+        let mut w = respawn(exes, profile);
+        let mut need: BTreeMap<&str, Vec<String>> = BTreeMap::new();
+        for (t, tname) in templates.iter().enumerate() {
+            let idx = (t as u64) * families::NEST_DEPTH + (families::NEST_DEPTH - 1);
+            let mut survived_at = None;
+            for (bytes, cname) in classes {
+                let lvl = Level { name: format!("nest128@{cname}"), family: "nest".into(), total: fam.size(), chunk: 1, pretty: true, stack: bytes, sub: 1, quar: true, dskip: 0 };
+                w.send(&run_cmd(&lvl, idx, idx + 1, "run"));
+                cases += 1;
+                match w.read_reply() {
+                    Ok(r) => {
+                        rep.transitions += r.calls;
+                        survived_at = Some(cname);
+                        break;
+                    }
+                    Err(d) => {
+                        w = respawn(exes, profile);
+                        rep.count(&format!("nest128_died.{profile}.{cname}"), 1);
+                        if bytes >= DEFAULT_STACK {
+                            let input = fam.input(idx);
+                            let (key, msg, _) = death_key(exes, profile, &input, true, bytes, 0, &d.how);
+                            agg.lock().unwrap().add(&key, profile, 1, input, &lvl, idx, format!("nesting depth 128 ({tname}) on an 8 MiB stack: {msg}"));
+                        }
+                    }
+                }
+            }
+            let c = survived_at.unwrap_or(">8MiB");
+            rep.count(&format!("nest128_min_stack.{profile}.{c}"), 1);
+            if c != "256KiB" {
+                need.entry(c).or_default().push(tname.clone());
+            }
+        }
+        for (c, ts) in need {
+            rep.notes.push(format!("depth 128 needs a {c} thread stack in the {profile} build for: {}", ts.join(", ")));
+        }
+    }
+    rep.level("nest128-stack-classes(informational)", cases, true);
+}
+
+// ---------------------------------------------------------------------------------------
+// single literal inputs (recheck, replay)
+// ---------------------------------------------------------------------------------------
+
+/// Run one literal input in a fresh worker of `profile`; returns violation keys -> message,
+/// and the outcome vector (None if the worker died).
+fn observe_literal(exes: &Exes, profile: &str, input: &str, pretty: bool, stack: u64, dskip: u32) -> Option<(BTreeMap<String, String>, Option<String>)> {
+    let mut w = exes.spawn(profile)?;
+    w.hello()?;
+    let fam = format!("lit:{}", hex::encode(input.as_bytes()));
+    w.send(&format!("RUN {fam} 0 1 {} {} detail 0 {dskip}", pretty as u8, stack));
+    let mut keys = BTreeMap::new();
+    match w.read_reply() {
+        Ok(r) => {
+            for a in &r.anomalies {
+                keys.insert(mk_key(&a.key()), format!("[{}] {}: {}", a.ep, a.class, a.detail));
+            }
+            Some((keys, r.details.first().map(|d| d.1.clone())))
+        }
+        Err(d) => {
+            let (key, msg, _) = death_key(exes, profile, input, pretty, stack, dskip, &d.how);
+            keys.insert(mk_key(&key), msg);
+            Some((keys, None))
+        }
+    }
+}
+
+/// All violation keys observable on one literal input (both profiles + comparison).
+fn observe_all(exes: &Exes, input: &str, pretty: bool, stack: u64, dskip: u32) -> BTreeMap<String, String> {
+    let mut keys = BTreeMap::new();
+    let c = observe_literal(exes, "checked", input, pretty, stack, dskip);
+    let r = observe_literal(exes, "release", input, pretty, stack, dskip);
+    let mut codes = vec![];
+    for (p, o) in [("checked", &c), ("release", &r)] {
+        if let Some((k, code)) = o {
+            for (k, m) in k {
+                keys.entry(k.clone()).or_insert(format!("{m} ({p})"));
+            }
+            if let Some(code) = code {
+                codes.push(code.clone());
+            }
+        }
+    }
+    if codes.len() == 2 && codes[0] != codes[1] && !subject::codes_have_panic(&codes[0]) && !subject::codes_have_panic(&codes[1]) {
+        keys.insert(
+            mk_key(&format!("profile-disagreement|{input}")),
+            format!("checked {} release {}", subject::describe_codes(&codes[0]), subject::describe_codes(&codes[1])),
+        );
+    }
+    keys
+}
+
+fn replay(exes: &Exes, path: &str) -> i32 {
+    let s = match std::fs::read_to_string(path) {
+        Ok(s) => s,
+        Err(e) => {
+            eprintln!("ENGINE-ERROR: cannot read {path}: {e}");
+            return 2;
+        }
+    };
+    let v: Value = match serde_json::from_str(&s) {
+        Ok(v) => v,
+        Err(e) => {
+            eprintln!("ENGINE-ERROR: {path} is not JSON: {e}");
+            return 2;
+        }
+    };
+    let case = &v["case"];
+    let Some(input) = case["input"].as_str() else {
+        eprintln!("ENGINE-ERROR: replay file has no case.input");
+        return 2;
+    };
+    let pretty = case["pretty_parse"].as_bool().unwrap_or(true);
+    let stack = case["stack_bytes"].as_u64().unwrap_or(DEFAULT_STACK);
+    let want = v["key"].as_str().unwrap_or("");
+    println!("replaying input {:?} ({} bytes), stack {} bytes, profiles: checked{}", input, input.len(), stack, if exes.release.is_some() { " + release" } else { "" });
+    println!("expected: every entry point returns Ok or Err (diagnostic label within input), identically in both profiles");
+    let dskip = case["display_skip_mask"].as_u64().unwrap_or(0) as u32;
+    let keys = observe_all(exes, input, pretty, stack, dskip);
+    let mut hit = false;
+    for (k, m) in &keys {
+        let same = want.is_empty() || k == want || k.starts_with(want) || want.starts_with(k.as_str());
+        if same {
+            println!("REPRODUCED {k} :: {m}");
+            hit = true;
+        } else {
+            println!("also observed {k} :: {m}");
+        }
+    }
+    if hit {
+        1
+    } else if !keys.is_empty() {
+        println!("REPRODUCED (different failure class than recorded key {want})");
+        1
+    } else {
+        println!("not reproduced: every entry point returned Ok/Err with a usable diagnostic in all available profiles");
+        0
+    }
+}
+
+// ---------------------------------------------------------------------------------------
+// main
+// ---------------------------------------------------------------------------------------
+
+fn find_exes(notes: &mut Vec<String>) -> Exes {
+    let checked = std::env::current_exe().expect("current_exe");
+    let mut release = None;
+    match std::env::var("MC_RELEASE_DIR") {
+        Ok(d) => {
+            let p = PathBuf::from(d).join("c13");
+            if p.is_file() {
+                // greet to make sure it is a release build of the same families
+                match Worker::spawn(&p, "--worker-release", None) {
+                    Ok(mut w) => match w.hello() {
+                        Some((prof, fp)) if prof == "release" && fp == families::fingerprint() => release = Some(p),
+                        Some((prof, fp)) => notes.push(format!(
+                            "release binary {} unusable: profile {prof}, family fingerprint {fp} (expected release, {}); release level not run",
+                            p.display(),
+                            families::fingerprint()
+                        )),
+                        None => notes.push(format!("release binary {} did not greet; release level not run", p.display())),
+                    },
+                    Err(e) => notes.push(format!("release binary {} cannot be started: {e}; release level not run", p.display())),
+                }
+            } else {
+                notes.push(format!("release binary {} missing; release level not run", p.display()));
+            }
+        }
+        Err(_) => notes.push("MC_RELEASE_DIR unset; release level not run".into()),
+    }
+    Exes { checked, release }
+}
+
+fn main() {
+    let (tier, replay_path, rest) = parse_args();
+    if rest.iter().any(|a| a == "--worker" || a == "--worker-release") {
+        worker::main();
+        return;
+    }
+    if rest.iter().any(|a| a == "--list") {
+        // debugging aid: print every input of a family: c13 --list <family>
+        if let Some(f) = rest.iter().skip_while(|a| *a != "--list").nth(1).and_then(|f| Family::parse(f)) {
+            for i in 0..f.size() {
+                println!("{i}\t{:?}", f.input(i));
+            }
+        }
+        return;
+    }
+    install_quiet_panic_hook();
+    if cfg!(not(debug_assertions)) {
+        eprintln!("note: this orchestrator is a release build; its own workers are not overflow-checked");
+    }
+    let mut notes = vec![];
+    let exes = find_exes(&mut notes);
+    if let Some(path) = replay_path {
+        for n in &notes {
+            println!("note: {n}");
+        }
+        std::process::exit(replay(&exes, &path));
+    }
+
+    let ctx = Ctx::new("C13", tier, tier.pick(55, 1140));
     let mut rep = Report::new();
-    let _ = catch(|| ());
-    rep.sample(json!("skeleton"));
-    let code = finish(&ctx, rep, "skeleton", &[], json!({}));
+    rep.notes.extend(notes);
+    if exes.release.is_none() {
+        rep.level("release-profile", 0, false);
+    }
+    let agg = Mutex::new(Agg::default());
+
+    let full = families::TOKENS_FULL.len();
+    let core = families::TOKENS_CORE.len();
+    // cl: max characters; fp/kp: FULL/CORE-alphabet lengths that also get pretty_parse;
+    // fl: max FULL-alphabet length; kl: CORE-alphabet length of the longest sequences
+    let (cl, fp, kp, fl, kl) = match tier {
+        Tier::Quick => (3u32, 2u32, 3u32, 3u32, 4u32),
+        Tier::Thorough => (4, 3, 4, 4, 5),
+    };
+    let mk = |name: String, family: String, chunk: u64, sub: u64, pretty: bool, stack: u64, quar: bool| {
+        let total = Family::parse(&family).expect("family").size();
+        Level { name, family, total, chunk, pretty, stack, sub, quar, dskip: 0 }
+    };
+    let mut levels = vec![
+        mk("vi-non-utf8-string-literals".into(), "quar".into(), 1, 1, true, DEFAULT_STACK, false),
+        mk("iv-nesting-1..128@64MiB".into(), "nest".into(), 64, 16, true, NEST_STACK, true),
+        mk("iii-E3-seed-mutants".into(), "mut".into(), 256, 32, true, DEFAULT_STACK, true),
+        mk("v-annotated-numerals".into(), "ann".into(), 128, 64, true, DEFAULT_STACK, true),
+        mk(format!("i-chars<={cl}"), format!("chars:0:{cl}"), 4096, 256, true, DEFAULT_STACK, true),
+        mk(format!("ii-tokens-full<={fp}(pretty)"), format!("toksF:0:{fp}"), 2048, 256, true, DEFAULT_STACK, true),
+    ];
+    if fl > fp {
+        levels.push(mk(format!("ii-tokens-full={}..{fl}", fp + 1), format!("toksF:{}:{fl}", fp + 1), 32768, 2048, false, DEFAULT_STACK, true));
+    }
+    levels.push(mk(format!("ii-tokens-core={kl}"), format!("toksC:{kl}:{kl}"), 32768, 2048, false, DEFAULT_STACK, true));
+    // pretty_parse over every CORE sequence of length kp (a subset of the FULL sequences above)
+    levels.push(mk(format!("ii-tokens-core={kp}(pretty)"), format!("toksC:{kp}:{kp}"), 2048, 256, true, DEFAULT_STACK, true));
+    for lvl in &levels {
+        if ctx.timed_out() {
+            rep.level(&lvl.name, 0, false);
+            rep.notes.push(format!("level {}: not started, wall cap", lvl.name));
+            continue;
+        }
+        let r = run_level(&ctx, &exes, &agg, lvl);
+        rep.merge(r);
+    }
+    stack_classes(&exes, &agg, &mut rep);
+
+    // re-check every aggregated violation once on a fresh worker, then hand it to the engine
+    let agg = agg.into_inner().unwrap();
+    for (key, e) in &agg.entries {
+        let nkey = mk_key(key);
+        let again = observe_all(&exes, &e.input, e.pretty, e.stack, e.dskip);
+        let confirmed = again.keys().any(|k| *k == nkey || nkey.starts_with(k.as_str()) || k.starts_with(nkey.as_str()));
+        if !confirmed {
+            rep.notes.push(format!("violation {nkey} did not recur when its input was re-run alone (kept, flagged recheck=false)"));
+        }
+        rep.violation_count += e.count;
+        rep.violations.push(Violation {
+            key: nkey,
+            msg: format!("{} [{} failing (input, profile) observations; shortest input shown]", e.msg, e.count),
+            case: json!({
+                "input": e.input,
+                "input_bytes_hex": hex::encode(e.input.as_bytes()),
+                "family": e.family,
+                "index": e.index,
+                "pretty_parse": e.pretty,
+                "stack_bytes": e.stack,
+                "display_skip_mask": e.dskip,
+                "failing_observations": e.count,
+                "failing_observations_per_profile": e.per_profile,
+                "recheck": confirmed,
+            }),
+        });
+    }
+    let fam_sample = Family::parse("mut").unwrap();
+    for i in [0u64, 1, 7] {
+        rep.sample(json!({"family": "mut", "index": i, "input": fam_sample.input(i)}));
+    }
+    let famk = Family::parse(&format!("toksC:{kl}:{kl}")).unwrap();
+    rep.sample(json!({"family": format!("toksC:{kl}:{kl}"), "index": famk.size() / 3, "input": famk.input(famk.size() / 3)}));
+    let famc = Family::parse(&format!("chars:0:{cl}")).unwrap();
+    rep.sample(json!({"family": format!("chars:0:{cl}"), "index": famc.size() / 2, "input": famc.input(famc.size() / 2)}));
+
+    let rule = format!(
+        "A case is one input string sent to all {n_ep} entry points ({eps}) in a checked-profile worker process and, when available, a release-profile worker process; \
+         evaluations = inputs x entry points (checked); transitions = calls into the subject (both profiles); traces_validated = inputs whose outcome vectors (per entry point: parse Ok/Err/panic, follow-up Ok/Err/panic, diagnostic label validity, pretty_parse outcome) were compared between the two profiles. \
+         Per entry point: parse; on Ok the follow-ups (IDLProg: check_prog(&mut TypeEnv::new()); IDLType/IDLTypes: ast_to_type per type; IDLInitArgs: check_init_args; Test: check_prog of the defs, ast_to_type of every assertion type, Input::parse of textual left inputs (binary inputs are not decoded); args/value: to_string, get_types/value_ty, annotate_types(true, &TypeEnv::new(), own types), to_string of the result); \
+         on Err: the error must be Error::Parse, Display must return, report() must return one label with start <= end <= len+1, and (levels marked pretty_parse) pretty_parse::<T>(\"name\", input) / pretty_wrap must return Err as well. Every call is wrapped in catch(); a dead worker is bisected to the input. \
+         Non-trivial (distinct_nontrivial) = inputs accepted (parse Ok) by at least one entry point. \
+         Families: (i) chars:0:{cl} = all strings of 0..={cl} characters over the {nc}-character alphabet {chars:?}; \
+         (ii) toksF:0:{fl} = all sequences of 0..={fl} lexemes over the FULL alphabet ({full} lexemes) joined by one space, plus toksC:{kl}:{kl} = all sequences of exactly {kl} lexemes over the CORE alphabet ({core} lexemes, a subset of FULL); pretty_parse is called on the levels marked pretty_parse=true in `levels` (FULL sequences of <= {fp} lexemes and CORE sequences of {kp}), report() and Display on all; FULL = {tf:?}; CORE = {tc:?}; \
+         Quarantine: on levels marked display_skipped_on_quarantined_inputs the Display (to_string) stage of errors is skipped for inputs containing a backslash followed by two hex digits >= 0x80 (counter display_stage_skipped_on_quarantined_inputs), because formatting an error that carries a non-UTF-8 text token aborts a debug-assertions build (uncatchable; a process spawn costs ~0.2 s here) and one abort per input would dominate the run; family (vi) quar = {nq} hand-written inputs with such literals in every syntactic position runs with nothing skipped (after an abort in the Display stage of one entry point the input is re-run with only that stage masked, so every entry point is observed). \
+         (iii) mut = for each of the {ns} seed sentences (arrays of lexemes, see families.rs SEEDS): the seed, every single-lexeme deletion, duplication, replacement by every FULL lexeme, and adjacent swap; \
+         (iv) nest = {nt} nesting templates x depth 1..=128 on a 64 MiB thread, plus depth 128 of every template on 256 KiB / 1 MiB / 8 MiB threads (informational except 8 MiB); templates = {tn:?}; \
+         (v) ann = every numeral lexeme x sign x annotation type product `( <sign><numeral> : <type> )`. \
+         Other families run on an 8 MiB thread. Violation keys = entry point | failure class | normalised panic message @ file:line (shortest failing input recorded; all failing observations counted), profile disagreements not explained by a panic are keyed on the input.",
+        n_ep = subject::N_EP,
+        nq = families::QUAR.len(),
+        eps = subject::EP_NAMES.join(", "),
+        nc = families::CHARS.len(),
+        chars = families::CHARS,
+        tf = families::TOKENS_FULL,
+        tc = families::TOKENS_CORE,
+        ns = families::SEEDS.len(),
+        nt = families::nest_template_names().len(),
+        tn = families::nest_template_names(),
+    );
+    let assumptions = [
+        "nesting depth claimed only up to 128 (depth counts repetitions of the nesting construct; the wrappers add at most two more levels)",
+        "inputs are bounded: <= 4 characters, <= 5 lexemes, or one lexeme away from a seed sentence; long flat inputs (e.g. thousands of consecutive comments) are outside the enumerated scope",
+        "binary (blob) inputs of test scripts are parsed but not decoded (decoder is the subject of other properties)",
+        "imports are not resolved (check_prog ignores them); check_file is not exercised",
+        "checked profile = release optimisation + overflow-checks + debug-assertions, used as the stand-in for a debug build",
+    ];
+    let extra = json!({
+        "profiles_run": if exes.release.is_some() { json!(["checked", "release"]) } else { json!(["checked"]) },
+        "alphabet_sizes": {"chars": families::CHARS.len(), "tokens_full": full, "tokens_core": core, "seeds": families::SEEDS.len(), "nest_templates": families::nest_template_names().len()},
+        "oracle_traces_validated_against_spec_suite": 0,
+    });
+    let code = finish(&ctx, rep, &rule, &assumptions, extra);
     std::process::exit(code);
 }
